@@ -233,3 +233,18 @@ pub fn gen_history(rng: &mut Rng, prog: &Program, p: &GenParams) -> Vec<Op> {
     }
     ops
 }
+
+/// Insert `Restart` / `Drain` operations at arbitrary later positions.
+pub fn sprinkle(rng: &mut Rng, ops: Vec<Op>, restarts: u32, drains: u32) -> Vec<Op> {
+    let mut out = ops;
+    let first_session = out.iter().position(|o| matches!(o, Op::Session { .. })).unwrap_or(0);
+    for _ in 0..restarts {
+        let pos = rng.range(first_session as u64 + 1, out.len() as u64) as usize;
+        out.insert(pos, Op::Restart);
+    }
+    for _ in 0..drains {
+        let pos = rng.range(first_session as u64 + 1, out.len() as u64) as usize;
+        out.insert(pos, Op::Drain);
+    }
+    out
+}
